@@ -267,6 +267,315 @@ static void random_data_suite(vf::Rng& r) {
   }
 }
 
+// ------------------------------------------------------------------------------------------------
+// Process environment at FIRST use.  random_data opens /dev/urandom lazily, on the first random_* call of the process,
+// and keeps that descriptor for good; the number it gets is the lowest free one at that moment.  A process that
+// already holds a thousand descriptors (a server) gets a number >= FD_SETSIZE (1024), a number no select()-style table
+// can index.  The statement ("random_int always lies in [lo,hi]", "random_data fills exactly the requested bytes") does
+// not depend on descriptor numbers, so each regime must satisfy the same laws with no exception escaping.
+//
+// Each regime runs in a forked child (the parent has not called any random_* function yet - checked through
+// /proc/self/fd): raise RLIMIT_NOFILE, dup /dev/null until the lowest free number is the target, make the FIRST
+// random_* call (6 kinds in rotation), run the ordinary random_int / random_data judgements, close the fillers, repeat.
+// The child sends its Ctx (evaluations, classes, counters, violations) to the parent through a pipe.
+#include <fcntl.h>
+#include <sys/resource.h>
+#include <sys/stat.h>
+#include <sys/sysmacros.h>
+#include <sys/wait.h>
+#include <unistd.h>
+
+#include <thread>
+
+struct FdRegime {
+  const char* name;
+  int target;  // lowest free descriptor number at first use (0 = leave the process as it is, -1 = close 0..2 first)
+};
+static const FdRegime FD_REGIMES[] = {{"normal", 0}, {"fd1023", 1023}, {"fd1024", 1024}, {"fd1025", 1025}, {"fd4096", 4096},
+    {"fd16384", 16384}, {"stdio-closed", -1}};
+static const char* FIRST_KINDS[] = {"random_int-tiny", "random_int-63bit", "random_data-1", "random_data-4097", "random_data-string", "random_int-on-fresh-thread"};
+
+static int lowest_free_fd(int nullfd) {
+  int p = dup(nullfd);
+  if (p >= 0) close(p);
+  return p;
+}
+static bool is_urandom(int fd) {
+  struct stat st;
+  return fstat(fd, &st) == 0 && S_ISCHR(st.st_mode) && major(st.st_rdev) == 1 && minor(st.st_rdev) == 9;
+}
+static void pipe_put(string& buf, char kind, const string& a, const string& b = "", const string& c = "") {
+  auto clean = [](string s) {
+    for (char& ch : s)
+      if (ch == '\n' || ch == '\x1f') ch = ' ';
+    return s;
+  };
+  buf += kind;
+  buf += '\x1f' + clean(a) + '\x1f' + clean(b) + '\x1f' + clean(c) + '\n';
+}
+
+// violation keys name the descriptor-number class only (the regime and the phase go into the case text)
+static const char* fd_class(int fd) { return fd < 1024 ? "urandom-fd<1024" : "urandom-fd>=1024"; }
+
+static void random_suites_guarded(vf::Rng& r, const char* regime, int urandom_fd, const char* phase) {
+  string kase = fmt("regime=%s (/dev/urandom is descriptor %d), %s", regime, urandom_fd, phase);
+  try {
+    random_int_suite(r);
+  } catch (const std::exception& e) {
+    C->violation(fmt("random_int:threw:after-first-use:%s", fd_class(urandom_fd)), string("an exception escaped random_int: ") + e.what(), kase);
+  }
+  try {
+    random_data_suite(r);
+  } catch (const std::exception& e) {
+    C->violation(fmt("random_data:threw:after-first-use:%s", fd_class(urandom_fd)), string("an exception escaped random_data: ") + e.what(), kase);
+  }
+}
+
+// runs in the child; returns normally, the caller serialises the Ctx
+static void fd_regime_child(const FdRegime& reg, int kind, uint64_t job) {
+  vf::Rng r = C->rng(1000 + job);
+  struct rlimit rl;
+  getrlimit(RLIMIT_NOFILE, &rl);
+  if (rl.rlim_cur < rl.rlim_max) {
+    rl.rlim_cur = rl.rlim_max;
+    setrlimit(RLIMIT_NOFILE, &rl);
+    getrlimit(RLIMIT_NOFILE, &rl);
+  }
+  if (reg.target > 0 && (rlim_t)reg.target + 64 > rl.rlim_cur) {
+    C->count(fmt("fd_regime_unreachable:%s(RLIMIT_NOFILE=%llu)", reg.name, (unsigned long long)rl.rlim_cur));
+    return;
+  }
+  if (reg.target < 0) {
+    // descriptors 0..2 closed before first use: /dev/urandom becomes descriptor 0.  The statement does not speak about a
+    // process without standard streams (and anything written to "stderr" later lands on whatever took number 2):
+    // counted, not judged.
+    close(0);
+    close(1);
+    close(2);
+    int ok = 0, threw = 0;
+    for (int i = 0; i < 2000; i++) {
+      try {
+        int64_t v = phosg::random_int(1, 6);
+        uint8_t b[5000];
+        phosg::random_data(b, 1 + (i % 4999));
+        ok += (v >= 1 && v <= 6);
+      } catch (const std::exception&) {
+        threw++;
+      }
+    }
+    C->count("fd_regime_stdio_closed_calls_ok", ok);
+    C->count("fd_regime_stdio_closed_calls_threw", threw);
+    C->count(fmt("fd_regime_stdio_closed_urandom_is_fd0:%d", (int)is_urandom(0)));
+    C->cls("random:fd:stdio-closed:counted-not-judged");
+    return;
+  }
+  int nullfd = open("/dev/null", O_RDONLY);
+  vector<int> fillers;
+  if (reg.target > 0) {
+    for (;;) {
+      int fd = dup(nullfd);
+      if (fd < 0) {
+        C->count(fmt("fd_regime_unreachable:%s(dup failed)", reg.name));
+        return;
+      }
+      fillers.push_back(fd);
+      if (fd >= reg.target - 1) break;
+    }
+  }
+  int predicted = lowest_free_fd(nullfd);
+  if (reg.target > 0 && predicted != reg.target) {
+    fprintf(stderr, "[harness-error] fd regime %s: lowest free descriptor is %d\n", reg.name, predicted);
+    _exit(3);
+  }
+  string kase = fmt("regime=%s (lowest free descriptor %d, %zu descriptors held) first call=%s", reg.name, predicted, fillers.size() + 4, FIRST_KINDS[kind]);
+  C->crumb_n("fd_regime_first_use", (uint64_t)predicted, (uint64_t)kind);
+  // ---- the FIRST random_* call of this process ----
+  C->evaluations++;
+  try {
+    switch (kind) {
+      case 0: {
+        int64_t v = phosg::random_int(1, 6);
+        if (v < 1 || v > 6) C->violation("random_int:out-of-range", "random_int(1,6) outside [1,6] at first use", kase + fmt(" -> %" PRId64, v));
+        break;
+      }
+      case 1: {
+        int64_t lo = -0x3FFFFFFFFFFFFFFFLL, hi = 0x3FFFFFFFFFFFFFFFLL;
+        int64_t v = phosg::random_int(lo, hi);
+        if (v < lo || v > hi) C->violation("random_int:out-of-range", "random_int(-2^62+1,2^62-1) outside the range at first use", kase + fmt(" -> %" PRId64, v));
+        break;
+      }
+      case 2: {
+        uint8_t b[3] = {0xC5, 0x77, 0xC5};
+        phosg::random_data(b + 1, 1);
+        if (b[0] != 0xC5 || b[2] != 0xC5) C->violation("random_data:canary", "byte outside [p,p+n) modified", kase);
+        break;
+      }
+      case 3: {
+        const size_t n = 4097, pad = 32;
+        vector<uint8_t> b(n + 2 * pad, 0xA5);
+        phosg::random_data(b.data() + pad, n);
+        size_t run = 0, worst = 0;
+        for (size_t i = 0; i < n; i++) {
+          run = b[pad + i] == 0xA5 ? run + 1 : 0;
+          if (run > worst) worst = run;
+        }
+        if (worst >= 16) C->violation("random_data:unfilled", fmt("%zu consecutive requested bytes were never written at first use", worst), kase);
+        for (size_t i = 0; i < pad; i++)
+          if (b[i] != 0xA5 || b[pad + n + i] != 0xA5) {
+            C->violation("random_data:canary", "byte outside [p,p+n) modified", kase);
+            break;
+          }
+        break;
+      }
+      case 4: {
+        string s = phosg::random_data(100);
+        if (s.size() != 100) C->violation("random_data:string-size", "random_data(100).size()!=100 at first use", kase);
+        else if (s == string(100, '\0')) C->violation("random_data:unfilled", "random_data(100) returned 100 zero bytes at first use (p=2^-800)", kase);
+        break;
+      }
+      default: {
+        string err;
+        int64_t v = 0;
+        std::thread t([&] {
+          try {
+            v = phosg::random_int(0, 255);
+          } catch (const std::exception& e) {
+            err = string("!") + e.what();
+          }
+        });
+        t.join();
+        if (!err.empty()) throw std::runtime_error(err.substr(1));
+        if (v < 0 || v > 255) C->violation("random_int:out-of-range", "random_int(0,255) outside the range at first use on a fresh thread", kase);
+        break;
+      }
+    }
+  } catch (const std::exception& e) {
+    C->violation(fmt("%s:threw:first-use:%s", kind == 2 || kind == 3 || kind == 4 ? "random_data" : "random_int", fd_class(predicted)),
+        string("an exception escaped the first random_* call of the process: ") + e.what(), kase);
+  }
+  bool confirmed = predicted >= 0 && is_urandom(predicted);
+  if (!confirmed) {
+    fprintf(stderr, "[harness-error] fd regime %s: descriptor %d is not /dev/urandom after the first random_* call\n", reg.name, predicted);
+    _exit(3);
+  }
+  const char* bucket = predicted < 1023 ? "<1023" : predicted == 1023 ? "1023" : predicted == 1024 ? "1024" : predicted < 4096 ? "1025..4095" : predicted < 16384 ? "4096..16383" : ">=16384";
+  // ---- the ordinary judgements, with the fillers still open, then with them closed ----
+  random_suites_guarded(r, reg.name, predicted, "filler descriptors still open");
+  for (int fd : fillers) close(fd);
+  close(nullfd);
+  random_suites_guarded(r, reg.name, predicted, "filler descriptors closed again");
+  C->cls(fmt("random:fd:urandom-fd%s:first-%s", bucket, FIRST_KINDS[kind]));
+  C->cls(fmt("random:fd:regime:%s", reg.name));
+  C->count(fmt("fd_regime_children:%s", reg.name));
+}
+
+static void random_fd_regime_suite() {
+  // the parent must not have opened /dev/urandom yet (= no random_* call so far in this process)
+  for (int fd = 0; fd < 256; fd++)
+    if (is_urandom(fd)) {
+      fprintf(stderr, "[harness-error] /dev/urandom is already open (fd %d) before the first-use children are forked\n", fd);
+      exit(3);
+    }
+  const size_t NR = sizeof(FD_REGIMES) / sizeof(FD_REGIMES[0]), NK = sizeof(FIRST_KINDS) / sizeof(FIRST_KINDS[0]);
+  for (uint64_t job = 0; job < NR * NK; job++) {
+    if (!C->mine(job)) continue;
+    const FdRegime& reg = FD_REGIMES[job / NK];
+    int kind = (int)(job % NK);
+    if (reg.target < 0 && kind != 0) continue;
+    int pfd[2];
+    if (pipe(pfd) != 0) {
+      perror("[harness-error] pipe");
+      exit(3);
+    }
+    fflush(nullptr);
+    pid_t pid = fork();
+    if (pid < 0) {
+      perror("[harness-error] fork");
+      exit(3);
+    }
+    if (pid == 0) {
+      close(pfd[0]);
+      alarm(900);
+      C->evaluations = 0;
+      C->classes.clear();
+      C->counters.clear();
+      C->violations.clear();
+      C->viol_counts.clear();
+      try {
+        fd_regime_child(reg, kind, job);
+      } catch (const std::exception& e) {
+        C->violation("random:threw:unexpected", e.what(), reg.name);
+      }
+      string buf;
+      pipe_put(buf, 'E', to_string(C->evaluations));
+      for (auto& kv : C->classes) pipe_put(buf, 'C', kv.first, to_string(kv.second));
+      for (auto& kv : C->counters) pipe_put(buf, 'N', kv.first, to_string(kv.second));
+      for (auto& v : C->violations) pipe_put(buf, 'V', v.key, v.what, v.kase);
+      for (auto& kv : C->viol_counts) pipe_put(buf, 'K', kv.first, to_string(kv.second));
+      pipe_put(buf, 'Z', "done");
+      for (size_t off = 0; off < buf.size();) {
+        ssize_t w = write(pfd[1], buf.data() + off, buf.size() - off);
+        if (w <= 0) _exit(4);
+        off += (size_t)w;
+      }
+      _exit(0);
+    }
+    close(pfd[1]);
+    string in;
+    char tmp[65536];
+    for (;;) {
+      ssize_t n = read(pfd[0], tmp, sizeof(tmp));
+      if (n > 0) in.append(tmp, (size_t)n);
+      else if (n == 0 || errno != EINTR) break;
+    }
+    close(pfd[0]);
+    int status = 0;
+    while (waitpid(pid, &status, 0) < 0 && errno == EINTR) {
+    }
+    string kase = fmt("regime=%s first call=%s", reg.name, FIRST_KINDS[kind]);
+    if (WIFEXITED(status) && WEXITSTATUS(status) == 3) {
+      fprintf(stderr, "[harness-error] first-use child failed (%s)\n", kase.c_str());
+      exit(3);
+    }
+    bool done = false;
+    map<string, uint64_t> recorded;
+    size_t st = 0;
+    while (st < in.size()) {
+      size_t nl = in.find('\n', st);
+      if (nl == string::npos) break;
+      string line = in.substr(st, nl - st);
+      st = nl + 1;
+      vector<string> f;
+      size_t a = 0;
+      for (;;) {
+        size_t b = line.find('\x1f', a);
+        f.push_back(line.substr(a, b == string::npos ? string::npos : b - a));
+        if (b == string::npos) break;
+        a = b + 1;
+      }
+      if (f.size() < 4) continue;
+      switch (f[0][0]) {
+        case 'E': C->evaluations += strtoull(f[1].c_str(), nullptr, 10); break;
+        case 'C': C->cls(f[1], strtoull(f[2].c_str(), nullptr, 10)); break;
+        case 'N': C->count(f[1], strtoull(f[2].c_str(), nullptr, 10)); break;
+        case 'V':
+          C->violation(f[1], f[2], f[3]);
+          recorded[f[1]]++;
+          break;
+        case 'K': {
+          uint64_t n = strtoull(f[2].c_str(), nullptr, 10);
+          if (n > recorded[f[1]]) C->viol_counts[f[1]] += n - recorded[f[1]];
+          break;
+        }
+        case 'Z': done = true; break;
+      }
+    }
+    if (!done || !WIFEXITED(status) || WEXITSTATUS(status) != 0)
+      C->violation("random:first-use-child-died",
+          WIFSIGNALED(status) ? fmt("the child process was killed by signal %d", WTERMSIG(status)) : fmt("the child process exited with status %d without reporting", WIFEXITED(status) ? WEXITSTATUS(status) : -1), kase);
+  }
+}
+
 typedef Vector2<int64_t> V2;
 typedef Vector3<int64_t> V3;
 typedef Vector4<int64_t> V4;
@@ -751,6 +1060,10 @@ int main(int argc, char** argv) {
       {"gcd_ll", [](vf::Rng& r) { gcd_suite<long long>("longlong", r); }},
       {"gcd_ull", [](vf::Rng& r) { gcd_suite<unsigned long long>("ulonglong", r); }},
   };
+  // FIRST: the children that make the first random_* call of a process under a given descriptor-number regime (the
+  // parent itself must not have called any random_* function before forking them)
+  if (want("random") || want("fdregime")) random_fd_regime_suite();
+  if (only == "fdregime") return c.finish();
   for (size_t i = 0; i < parts.size(); i++)
     if (want("int") && c.mine(i)) parts[i].fn(r);
   if (want("random")) {
